@@ -98,3 +98,28 @@ Fixpoint count_seg (s : seg) (tr : list (nat * seg)) : nat :=
   | [] => O
   | (_, s') :: r => (if seg_eqb s' s then 1 else 0) + count_seg s r
   end.
+
+(* For contrast only (NOT the code): Next split into two critical sections — a lookup under a
+   read lock, then either an insert of a fresh counter (if the lookup missed) or the atomic
+   add.  Used to show that the round-robin theorem needs the single critical section. *)
+Inductive split_op := OpLookup (t : nat) (s : seg) | OpFinish (t : nat) (s : seg).
+
+Fixpoint pend_get (p : list (nat * bool)) (t : nat) : bool :=
+  match p with
+  | [] => false
+  | (t', b) :: r => if Nat.eqb t' t then b else pend_get r t
+  end.
+
+Fixpoint split_run (st : iter_state) (pend : list (nat * bool)) (ops : list split_op) : list (nat * N) :=
+  match ops with
+  | [] => []
+  | OpLookup t s :: r =>
+      split_run st ((t, match it_get st s with Some _ => true | None => false end) :: pend) r
+  | OpFinish t s :: r =>
+      if pend_get pend t then
+        match it_get st s with
+        | Some c => let c' := ((c + 1) mod two64)%N in (t, c') :: split_run (it_set st s c') pend r
+        | None => (t, 0%N) :: split_run (it_set st s 0%N) pend r
+        end
+      else (t, 0%N) :: split_run (it_set st s 0%N) pend r
+  end.
